@@ -894,7 +894,11 @@ class Dataset:
         if isinstance(other, DataArray):
             other = other.to_dataset()
 
+        mine = set(self._vars)
+
         def cell(n, k, a, b):
+            if compat == "override" and n in mine:
+                return a                    # the whole variable is taken from the first object, gaps included
             if isnull(a):
                 return b
             if isnull(b):
@@ -1042,16 +1046,29 @@ class MiniXRModule:
 
 
 class MiniJoblib:
+    # datasets handed out with mmap_mode: their arrays are views of the file, so a later dump of same-shaped data
+    # under the same name shows through them (numpy.memmap semantics); without mmap_mode a load is a private copy
+    _views = {}
+
     @staticmethod
     def dump(obj, file_name, **kw):
         _FS[0].put(file_name, ("JOBLIB", obj.copy(deep=True) if hasattr(obj, "copy") else obj))
+        for view in MiniJoblib._views.get((id(_FS[0]), file_name), []):
+            if isinstance(view, Dataset) and isinstance(obj, Dataset):
+                for n, da in view._vars.items():
+                    src = obj._vars.get(n)
+                    if src is not None and src.dims == da.dims and src.coords_ == da.coords_:
+                        da.cells = dict(src.cells)
 
     @staticmethod
-    def load(file_name, **kw):
+    def load(file_name, mmap_mode=None, **kw):
         obj = _FS[0].get(file_name)
         if not (isinstance(obj, tuple) and obj and obj[0] == "JOBLIB"):
             raise OSError("not a joblib dump: %r" % (file_name,))
-        return obj[1].copy(deep=True) if hasattr(obj[1], "copy") else obj[1]
+        out = obj[1].copy(deep=True) if hasattr(obj[1], "copy") else obj[1]
+        if mmap_mode is not None:
+            MiniJoblib._views.setdefault((id(_FS[0]), file_name), []).append(out)
+        return out
 
 
 def install(env, cr, ca, cp, fm, mg):
